@@ -2,8 +2,9 @@
   C15 — bench reader and writer are faithful.
   Theorems are about the statement level of the bench dialect: `Bench.build` (the API calls the reader makes for the
   statements its regular expressions extract) and `Bench.toStmts` (the statements the writer emits).  The character
-  level (`Bench.parse` = four `re.findall` passes over the text, `Bench.renderStmt`) is tied to the real code by
-  differential testing only: that part is C15_partial.
+  level (`Bench.parse` = comment stripping + four `re.findall` passes over the text, `Bench.renderStmt`) is covered by
+  `parse_write`, `roundtrip_text` and `parse_canonical` at the end of this file: theorems about the regex engine of
+  CG/Regex.lean (the model of CPython's `re`, itself tied to `re` by differential testing) running the extracted patterns.
   Property theorems only; helper lemmas live in CG/Proofs/Bench*.lean.
 -/
 import CG.Bench
@@ -12,6 +13,8 @@ import CG.Props.C06
 import CG.Proofs.BenchP
 import CG.Proofs.BenchSem
 import CG.Proofs.BenchRound
+import CG.Proofs.BenchTextWrite
+import CG.Proofs.BenchTextCanon
 namespace CG.C15
 open Bench
 
@@ -110,5 +113,71 @@ example : WellFormed ["a", "b"] [("o", "nand", ["a", "q"]), ("p", "buf", ["o"])]
   · decide
 example : (build "t" (stmtsOf ["a", "b"] [("o", "nand", ["a", "q"]), ("p", "buf", ["o"])] [("q", "p")] ["p", "q"])).toOption.map
     (fun c => c.nodes.length) = some 7 := by decide
+
+/-! ### character level: the reader's regular expressions on the writer's text -/
+
+/-- the identifiers the reader's regular expressions accept: `[a-zA-Z_][a-zA-Z\d_]*` -/
+def identStart (ch : Char) : Bool := ch.isAlpha || ch == '_'
+def identChar (ch : Char) : Bool := ch.isAlpha || ch.isDigit || ch == '_'
+def IdentOK (n : Name) : Prop :=
+  match n.toList with
+  | [] => False
+  | ch :: rest => identStart ch = true ∧ ∀ x ∈ rest, identChar x = true
+
+/-- **C15 (writer → reader, character level).** for every writable circuit whose node names are identifiers of the dialect
+    (and whose own name, which goes into the `#` header, contains no line break), the four regular-expression passes of the
+    reader over the text the writer emits extract exactly the statements the writer meant, in reader order — for every
+    set-iteration order of the writer -/
+theorem parse_write (c : Circuit) (ord : Ord) (hord : OrdOK ord) (hc : Writable c)
+    (hid : ∀ p ∈ c.nodes, IdentOK p.1) (hname : '\n' ∉ c.name.toList) :
+    ∃ text ss, write c ord = .ok text ∧ toStmts c ord = .ok ss ∧ parse text = some ss :=
+  BenchText.parse_write_core c ord hord ⟨hc.clean, hc.nobb, hc.hasInput, hc.types, hc.names⟩
+    (fun p hp => BenchText.identL_of p.1 (hid p hp)) hname
+
+/-- **C15 (round trip, text level).** hence reading back the *text* `circuit_to_bench` emits gives a circuit with the same
+    inputs and outputs that refines the original on every original node -/
+theorem roundtrip_text (c : Circuit) (ord : Ord) (hord : OrdOK ord) (hc : Writable c)
+    (hid : ∀ p ∈ c.nodes, IdentOK p.1) (hname : '\n' ∉ c.name.toList) :
+    ∃ text c', write c ord = .ok text ∧ read text c.name = .ok c' ∧
+      (∀ x, x ∈ c'.inputs ↔ x ∈ c.inputs) ∧ (∀ x, x ∈ c'.outputs ↔ x ∈ c.outputs) ∧ Refines c c' id := by
+  obtain ⟨text, ss, hw, hs, hp⟩ := parse_write c ord hord hc hid hname
+  obtain ⟨ss', c', hs', hb, h1, h2, h3⟩ := roundtrip c ord ord hord hord hc
+  rw [hs] at hs'
+  cases hs'
+  exact ⟨text, c', hw, by unfold Bench.read; rw [hp]; exact hb, h1, h2, h3⟩
+
+/-- **C15 (reader, character level, canonical layout).** a well-formed netlist written one statement per line in the
+    layout `INPUT(a)` / `OUTPUT(o)` / `n = TYPE(a, b)` / `q = DFF(d)` (upper-case keywords, any order of the lines) is
+    parsed into exactly its statements in reader order -/
+def canonLines (ins : List Name) (gates : List (Name × String × List Name)) (dffs : List (Name × Name)) (outs : List Name) :
+    List String :=
+  ins.map (fun i => renderStmt (.input i)) ++ outs.map (fun o => renderStmt (.output o)) ++
+  gates.map (fun g => renderStmt (.gate g.1 g.2.1 g.2.2)) ++ dffs.map (fun d => renderStmt (.dff d.1 d.2))
+
+theorem parse_canonical (ins : List Name) (gates : List (Name × String × List Name)) (dffs : List (Name × Name))
+    (outs : List Name) (hw : WellFormed ins gates dffs outs)
+    (hid : ∀ n, (n ∈ ins ∨ n ∈ gates.map (·.1) ∨ n ∈ dffs.map (·.1)) → IdentOK n)
+    (lines : List String) (hperm : lines.Perm (canonLines ins gates dffs outs)) :
+    ∃ ins' gates' dffs' outs', ins'.Perm ins ∧ gates'.Perm gates ∧ dffs'.Perm dffs ∧ outs'.Perm outs ∧
+      parse ("\n".intercalate lines) = some (stmtsOf ins' gates' dffs' outs') := by
+  have hnm : ∀ n, (n ∈ ins ∨ n ∈ gates.map (·.1) ∨ n ∈ dffs.map (·.1)) → BenchText.NameOK n :=
+    fun n hn => BenchText.identL_of n (hid n hn)
+  have hl : canonLines ins gates dffs outs = (BenchText.canonStmts ins gates dffs outs).map renderStmt := by
+    simp [canonLines, BenchText.canonStmts, List.map_append, List.map_map, Function.comp_def]
+  rw [hl] at hperm
+  exact BenchText.parse_canonical_core ins gates dffs outs hnm hw.gateTy (fun g hg => (hw.gateArity g hg).1) hw.uses
+    hw.dffUses hw.outsDef lines hperm
+
+
+/-- non-vacuity: identifiers of the dialect (`a_inv_0`, as the writer's constant encoding makes them) and a name that is
+    not one (`a[0]`: known finding K46) -/
+example : IdentOK "a_inv_0" := by
+  show (match "a_inv_0".toList with | [] => False | ch :: rest => identStart ch = true ∧ ∀ x ∈ rest, identChar x = true)
+  have : "a_inv_0".toList = ['a', '_', 'i', 'n', 'v', '_', '0'] := by decide
+  rw [this]; exact ⟨by decide, by decide⟩
+example : ¬ IdentOK "a[0]" := by
+  show ¬ (match "a[0]".toList with | [] => False | ch :: rest => identStart ch = true ∧ ∀ x ∈ rest, identChar x = true)
+  have : "a[0]".toList = ['a', '[', '0', ']'] := by decide
+  rw [this]; decide
 
 end CG.C15
